@@ -186,6 +186,10 @@ class TaskScheduler(object):
 
     def _continue_with_task(self, task):
         task._resume_contexts()
+        if task.is_computed():
+            # Resuming one of the task's contexts raised; the task has been failed with that
+            # error and its generator closed, so there is nothing left to continue.
+            return 0
         old_task = self.active_task
         self.active_task = task
 
